@@ -18,7 +18,7 @@
 (* selected by e.chk so that one recorded call can be validated against    *)
 (* one property at a time; Chk prints the failing clause.                  *)
 (***************************************************************************)
-EXTENDS Region, TLC
+EXTENDS Region, TLC, FiniteSets
 
 VARIABLES engines,   \* id -> [kind, prec, subj, clip, open, pc, rev, usedTree, nexec]
           offsets,   \* id -> [groups, miter, arc, pc, rev]
@@ -55,11 +55,9 @@ NoDrift(e, subj, clip) ==
 C02OK(e, sol) ==
   /\ \A k \in 1..Len(sol) : PathCanonical(sol[k])
   /\ \A k \in 1..Len(e.probes) : CanonicalAt(sol, e.rev, e.probes[k])
-  \* consequences: the three positive readings agree off the band ...
-  /\ \A k \in 1..Len(e.probes) :
-        LET p == e.probes[k] w == WnPaths(p, sol) ws == IF e.rev THEN -w ELSE w IN
-        FarClosed(p, sol, Band4) => (Fill(0, ws) = Fill(1, ws) /\ Fill(1, ws) = Fill(2, ws))
-  \* ... and re-uniting the solution changes nothing outside the band
+  \* consequences: the three positive readings agree off the band
+  \* (with winding numbers in {0, 1} -- {0, -1} reversed -- EvenOdd, NonZero and Positive coincide)
+  \* re-uniting the solution changes nothing outside the band
   /\ Has(e, "UNI") => \A k \in 1..Len(e.probes) : SameRegionAt(sol, e.uni, e.probes[k])
 
 (***************************************************************************)
@@ -68,11 +66,211 @@ C02OK(e, sol) ==
 (***************************************************************************)
 BooleanOpOK(e, idx) ==
   /\ Chk("OUT", idx, OutOK(e))
-  /\ Chk("ARGS", idx, e.argsSame)
-  /\ Chk("DET", idx, e.sol2same)
+  /\ Has(e, "ARGS") => Chk("ARGS", idx, e.argsSame)
+  /\ Has(e, "DET") => Chk("DET", idx, e.sol2same)
   /\ Has(e, "C01") => Chk("C01", idx, C01OK(e, e.subj, e.clip, e.sol))
   /\ Has(e, "C02") => Chk("C02", idx, C02OK(e, e.sol))
   /\ Chk("DRIFT", idx, NoDrift(e, e.subj, e.clip))
 
 BooleanOp(e, idx) == BooleanOpOK(e, idx) /\ UNCHANGED sysvars
+
+(***************************************************************************)
+(* Rectangle clipping of closed paths (C06).  rect = <<left, top, right,   *)
+(* bottom>> with left < right and top < bottom (y grows downwards in the   *)
+(* library's naming; only the interval structure matters here).            *)
+(***************************************************************************)
+RectPath(r) == << <<r[1], r[2]>>, <<r[3], r[2]>>, <<r[3], r[4]>>, <<r[1], r[4]>> >>
+RectNonEmpty(r) == r[1] < r[3] /\ r[2] < r[4]
+InRect(r, p, g) == r[1] - g <= p[1] /\ p[1] <= r[3] + g /\ r[2] - g <= p[2] /\ p[2] <= r[4] + g
+StrictInRect(r, p) == r[1] < p[1] /\ p[1] < r[3] /\ r[2] < p[2] /\ p[2] < r[4]
+PathInRect(r, path) == \A i \in 1..Len(path) : InRect(r, path[i], 0)
+PathBoundsDisjoint(r, path) ==
+  \/ \A i \in 1..Len(path) : path[i][1] < r[1]
+  \/ \A i \in 1..Len(path) : path[i][1] > r[3]
+  \/ \A i \in 1..Len(path) : path[i][2] < r[2]
+  \/ \A i \in 1..Len(path) : path[i][2] > r[4]
+
+C06OK(e) ==
+  LET r == e.rect  rp == <<RectPath(e.rect)>> IN
+  /\ RectNonEmpty(r)
+  \* every result vertex lies within the rectangle grown by one unit
+  /\ \A k \in 1..Len(e.res) : \A i \in 1..Len(e.res[k]) : InRect(r, e.res[k][i], 1)
+  \* winding number preserved inside, zero outside (off the bands of rectangle and input)
+  /\ \A k \in 1..Len(e.probes) :
+       LET p == e.probes[k] IN
+       (FarClosed(p, rp, Band4) /\ FarClosed(p, e.paths, Band4)) =>
+          WnPaths(p, e.res) = (IF StrictInRect(r, p) THEN WnPaths(p, e.paths) ELSE 0)
+  \* paths entirely inside are returned unchanged
+  /\ \A k \in 1..Len(e.paths) :
+       (Len(e.paths[k]) >= 3 /\ PathInRect(r, e.paths[k])) => \E j \in 1..Len(e.res) : e.res[j] = e.paths[k]
+  \* paths entirely outside vanish
+  /\ (\A k \in 1..Len(e.paths) : Len(e.paths[k]) = 0 \/ PathBoundsDisjoint(r, e.paths[k])) => e.res = <<>>
+
+RectClipOK(e, idx) ==
+  /\ Chk("OUT", idx, OutOK(e))
+  /\ Has(e, "ARGS") => Chk("ARGS", idx, e.argsSame)
+  /\ Has(e, "DET") => Chk("DET", idx, e.res2same)
+  /\ Has(e, "C06") => Chk("C06", idx, C06OK(e))
+
+(***************************************************************************)
+(* Rectangle clipping of open polylines (C11).  Probes are points ON the   *)
+(* input polylines (checked: a probe that is not on a line is a generator  *)
+(* error).  Coverage is two-sided so that rounding can never alarm: a      *)
+(* point that must be covered has to be within 1.5 of the result, a point  *)
+(* that must not be covered has to be farther than 0.5 from it.            *)
+(***************************************************************************)
+\* on a segment of positive length (zero-length segments are outside C09/C11: the library drops them)
+OnOpenPath(p, path) == \E i \in 1..(Len(path) - 1) : path[i] # path[i + 1] /\ OnSeg(p, path[i], path[i + 1])
+OnOpenPaths(p, paths) == \E k \in 1..Len(paths) : OnOpenPath(p, paths[k])
+
+\* the vertices of result polyline q follow input polyline `path` in order: there is a
+\* non-decreasing assignment of vertices to segments they are near to (within 1 unit) such that
+\* two vertices on the same segment advance along its direction (2 units of slack).
+\* S[i] is the set of segments vertex i can be assigned to in some valid assignment of q[1..i].
+FollowsInOrder(path, q) ==
+  /\ Len(path) >= 2
+  /\ LET n == Len(q)  m == Len(path) - 1
+         Near(v, s) == NearSeg(v, path[s], path[s + 1], 4)
+         Fwd(u, v, s) == LET a == path[s] b == path[s + 1] IN
+                         Dot(v[1] - u[1], v[2] - u[2], b[1] - a[1], b[2] - a[2]) >= -(2 * LenUB(b[1] - a[1], b[2] - a[2]))
+         S[i \in 1..n] == IF i = 1 THEN {s \in 1..m : Near(q[1], s)}
+                          ELSE {s \in 1..m : Near(q[i], s) /\ \E t \in S[i - 1] : t < s \/ (t = s /\ Fwd(q[i - 1], q[i], s))}
+     IN  S[n] # {}
+
+C11OK(e) ==
+  LET r == e.rect  rp == <<RectPath(e.rect)>> IN
+  /\ RectNonEmpty(r)
+  /\ \A k \in 1..Len(e.res) :
+       /\ Len(e.res[k]) >= 2
+       /\ \A i \in 1..Len(e.res[k]) : InRect(r, e.res[k][i], 1)
+       /\ \E j \in 1..Len(e.paths) : FollowsInOrder(e.paths[j], e.res[k])
+  /\ \A k \in 1..Len(e.probes) :
+       LET p == e.probes[k] IN
+       FarClosed(p, rp, Band4) =>
+          IF StrictInRect(r, p) THEN NearOpen(p, e.res, 6) ELSE FarOpen(p, e.res, 2)
+
+RectClipLinesOK(e, idx) ==
+  /\ Chk("OUT", idx, OutOK(e))
+  /\ Chk("GENERATOR", idx, \A k \in 1..Len(e.probes) : OnOpenPaths(e.probes[k], e.paths))
+  /\ Has(e, "ARGS") => Chk("ARGS", idx, e.argsSame)
+  /\ Has(e, "DET") => Chk("DET", idx, e.res2same)
+  /\ Has(e, "C11") => Chk("C11", idx, C11OK(e))
+
+(***************************************************************************)
+(* Exact measures and predicates (C14).  Arguments are native integers up  *)
+(* to 2^29 in magnitude; every product is formed in BigInt.                *)
+(***************************************************************************)
+GB == INSTANCE GeometryB
+TS == INSTANCE TrimSM
+
+Pow2_52 == GB!Mul(GB!FromInt(67108864), GB!FromInt(67108864))
+
+\* returned area r (given as 2r) equals A2/2 to float64 rounding (relative 2^-52)
+AreaMatches(a2ret, a2int, A2) ==
+  /\ a2int
+  /\ GB!Cmp(GB!Mul(GB!AbsB(GB!Sub(a2ret, A2)), Pow2_52), GB!AbsB(A2)) <= 0
+
+Area2SetB(set) ==
+  LET n == Len(set)
+      f[k \in 0..n] == IF k = 0 THEN GB!Zero ELSE GB!Add(f[k - 1], GB!Area2B(GB!BPath(set[k])))
+  IN  f[n]
+
+OneHorizontal(path) == \A i \in 1..Len(path) : path[i][2] = path[1][2]
+
+PipExpected(pt, path) ==
+  IF Len(path) < 3 THEN 2
+  ELSE IF GB!OnClosedPathB(GB!BPt(pt), GB!BPath(path)) THEN 0
+  ELSE IF (GB!WnPathB(GB!BPt(pt), GB!BPath(path)) % 2) # 0 THEN 1 ELSE 2
+
+C14OK(e) ==
+  CASE e.kind = "area"      -> AreaMatches(e.a2, e.a2int, GB!Area2B(GB!BPath(e.path)))
+    [] e.kind = "areapaths" -> AreaMatches(e.a2, e.a2int, Area2SetB(e.set))
+    [] e.kind = "ispos"     -> e.b = (GB!Sign(GB!Area2B(GB!BPath(e.path))) >= 0)
+    [] e.kind = "pip"       -> OneHorizontal(e.path) \/ e.pip = PipExpected(e.pt, e.path)
+    [] e.kind = "bounds"    -> IF Len(e.path) = 0 THEN e.rect = <<0, 0, 0, 0>>
+                               ELSE e.rect = <<MinX(e.path), MinY(e.path), MaxX(e.path), MaxY(e.path)>>
+    [] e.kind = "collinear" -> e.b = GB!CollinearB(GB!BPt(e.tri[1]), GB!BPt(e.tri[2]), GB!BPt(e.tri[3]))
+    [] OTHER -> FALSE
+
+MeasureOK(e, idx) ==
+  /\ Chk("OUT", idx, OutOK(e))
+  /\ Has(e, "ARGS") => Chk("ARGS", idx, e.argsSame)
+  /\ Has(e, "DET") => Chk("DET", idx, e.det)
+  /\ Has(e, "C14") => Chk("C14", idx, C14OK(e))
+
+(***************************************************************************)
+(* TrimCollinear64 (C15): the result must be the result of some terminal   *)
+(* state of the TrimSM machine (so it is a sub-sequence from which only    *)
+(* vertices collinear with their current neighbours were removed and in    *)
+(* which none is left), plus the consequences the property names.          *)
+(***************************************************************************)
+AllEqualPts(path) == \A i \in 1..Len(path) : path[i] = path[1]
+
+NoThreeCollinearCyclic(path) ==
+  Len(path) >= 3 => \A i \in 1..Len(path) :
+     ~GB!CollinearB(GB!BPt(Prv(path, i)), GB!BPt(path[i]), GB!BPt(Nxt(path, i)))
+
+C15OK(e) ==
+  LET P == e.path R == e.res IN
+  IF e.isOpen
+  THEN \/ Len(P) < 2 \/ AllEqualPts(P)                       \* no polyline: outside the property
+       \/ /\ Len(R) >= 2 /\ R[1] = P[1] /\ R[Len(R)] = P[Len(P)]
+          /\ TS!Accepts(P, FALSE, R)
+  ELSE /\ TS!Accepts(P, TRUE, R)
+       /\ GB!Area2B(GB!BPath(R)) = GB!Area2B(GB!BPath(P))
+       /\ NoThreeCollinearCyclic(R)
+       /\ e.res2 = R
+       /\ \A k \in 1..Len(e.probes) :
+            LET p == e.probes[k] IN
+            ~GB!OnClosedPathB(GB!BPt(p), GB!BPath(P)) =>
+               GB!WnPathB(GB!BPt(p), GB!BPath(R)) = GB!WnPathB(GB!BPt(p), GB!BPath(P))
+
+TrimOK(e, idx) ==
+  /\ Chk("OUT", idx, OutOK(e))
+  /\ Has(e, "ARGS") => Chk("ARGS", idx, e.argsSame)
+  /\ Has(e, "DET") => Chk("DET", idx, e.det)
+  /\ Has(e, "C15") => Chk("C15", idx, C15OK(e))
+
+(***************************************************************************)
+(* SimplifyPath (C16).  The removal order recorded from the implementation *)
+(* must be a behaviour of the greedy-removal machine: every removed vertex *)
+(* was, at that moment, within epsilon of the line through its current     *)
+(* retained neighbours, and the final state is terminal (no retained       *)
+(* vertex is within epsilon unless only two remain).  Comparisons are      *)
+(* exact rationals with a relative margin of 10^-9 in the direction that   *)
+(* accepts the implementation's float64 rounding.                          *)
+(***************************************************************************)
+Big(x) == GB!FromInt(x)
+M9 == Big(1000000000)
+
+SimplifyOK16(e) ==
+  LET P == e.path  n == Len(P)  BP == GB!BPath(P)
+      rem == [j \in 1..Len(e.removed) |-> e.removed[j] + 1]
+      RemSet(k) == {rem[j] : j \in 1..k}
+      en == GB!Mul(Big(e.epsN), Big(e.epsN))  ed == GB!Mul(Big(e.epsD), Big(e.epsD))
+      enUp == GB!Mul(en, GB!Add(M9, Big(1)))  edUp == GB!Mul(ed, M9)     \* eps^2 (1 + 1e-9)
+      enDn == GB!Mul(en, GB!Sub(M9, Big(1)))                            \* eps^2 (1 - 1e-9)
+      Within(S, i, num, den) == GB!PerpWithinB(BP[i], BP[TS!PrevRet(n, S, i)], BP[TS!NextRet(n, S, i)], num, den)
+      Protected(i) == ~e.closed /\ (i = 1 \/ i = n)
+      All == RemSet(Len(rem))
+  IN
+  IF n < 4 THEN e.removed = <<>> /\ e.res = P
+  ELSE
+  /\ \A j \in 1..Len(rem) : rem[j] \in 1..n /\ rem[j] \notin RemSet(j - 1) /\ ~Protected(rem[j])
+  \* every step is an enabled Remove of the machine
+  /\ \A j \in 1..Len(rem) : n - (j - 1) > 2 /\ Within(RemSet(j - 1), rem[j], enUp, edUp)
+  /\ e.res = TS!SubPath(P, All)
+  \* terminal
+  /\ \/ n - Cardinality(All) <= 2
+     \/ \A i \in 1..n : (i \notin All /\ ~Protected(i)) => ~Within(All, i, enDn, edUp)
+  \* epsilon 0: area of a closed path unchanged
+  /\ (e.epsN = 0 /\ e.closed) => GB!Area2B(GB!BPath(e.res)) = GB!Area2B(BP)
+  \* translation / power-of-two scaling do not change the index set
+  /\ \A v \in 1..Len(e.vars) : {e.vars[v].removed[j] + 1 : j \in 1..Len(e.vars[v].removed)} = All
+
+SimplifyOK(e, idx) ==
+  /\ Chk("OUT", idx, OutOK(e))
+  /\ Has(e, "ARGS") => Chk("ARGS", idx, e.argsSame)
+  /\ Has(e, "DET") => Chk("DET", idx, e.det)
+  /\ Has(e, "C16") => Chk("C16", idx, SimplifyOK16(e))
 =============================================================================
